@@ -18,6 +18,9 @@ FB = [
     dict(site="robot.fb_text", owner="robot", meth="text", key=None, hint=str, nt="/robot/text", topic="StringTopic"),
     dict(site="c2.fb_label", owner="c2", meth="get_label", key=None, hint=str, nt="/components/c2/label", topic="StringTopic"),
     dict(site="c2.fb_zname", owner="c2", meth="zname", key=None, hint=str, nt="/components/c2/zname", topic="StringTopic"),
+    # getters produced by a factory: the function's own __name__ is not the name of the method on its owner
+    dict(site="c1.fb_heading", owner="c1", meth="get_heading", fn_name="_read", key=None, hint=float, nt="/components/c1/heading", topic="DoubleTopic"),
+    dict(site="robot.fb_volts", owner="robot", meth="volts", fn_name="_read", key=None, hint=float, nt="/robot/volts", topic="DoubleTopic"),
 ]
 
 
@@ -51,8 +54,8 @@ def _mk_getter(H, spec, state):
         H.log.add("fbret", site, v)
         return v
 
-    getter.__name__ = spec["meth"]
-    getter.__qualname__ = spec["meth"]
+    getter.__name__ = spec.get("fn_name", spec["meth"])
+    getter.__qualname__ = getter.__name__
     if spec["hint"] is not None:
         getter.__annotations__ = {"return": spec["hint"]}
     return getter
@@ -165,6 +168,8 @@ class C11(LoopSpec):
             return [mkjob("R1", 3, True, fms=True, nt_snapshot=True),
                     mkjob("R2", 3, False, fms=True, nt_snapshot=True),
                     mkjob("R1", 3, True, fms=True, nt_snapshot=True, faults=1, fault_sites=fs, fault_patterns=["later", "always"]),
+                    # a getter failing with something that is not an Exception subclass
+                    mkjob("R1", 2, False, fms=True, nt_snapshot=True, faults=1, fault_sites=[fs[0], fs[5], fs[8]], fault_patterns=["always"], fault_kind="base"),
                     # other callbacks of the iteration raising must not stop the feedbacks from being published
                     mkjob("R1", 3, True, fms=True, nt_snapshot=True, faults=1, use_teleop_in_autonomous=True, fault_patterns=["always"],
                           fault_sites=["robot.teleopPeriodic", "c1.execute", "auto.on_iteration", "robot.disabledPeriodic", "robot.testPeriodic"])]
@@ -172,6 +177,7 @@ class C11(LoopSpec):
                 mkjob("R3", 5, False, fms=True, nt_snapshot=True),
                 mkjob("R1", 4, True, fms=True, nt_snapshot=True, faults=1, fault_sites=fs, fault_patterns=["first", "later", "always"]),
                 mkjob("R2", 3, True, fms=True, nt_snapshot=True, faults=2, fault_sites=fs[:4], fault_patterns=["later", "always"]),
+                mkjob("R1", 3, True, fms=True, nt_snapshot=True, faults=1, fault_sites=fs, fault_patterns=["later", "always"], fault_kind="any"),
                 mkjob("R1", 4, True, fms=True, nt_snapshot=True, faults=1, use_teleop_in_autonomous=True, fault_patterns=["always", "first"],
                       fault_sites=["robot.teleopPeriodic", "c1.execute", "auto.on_iteration", "robot.disabledPeriodic", "robot.testPeriodic", "robot.robotPeriodic"])]
 
